@@ -2,6 +2,7 @@ package nodis
 
 import (
 	"errors"
+	"fmt"
 	"log"
 	"os"
 	"os/signal"
@@ -221,11 +222,19 @@ func (n *Nodis) Serve(addr string) error {
 		os.Exit(0)
 	}()
 	return redis.Serve(addr, func(conn *redis.Conn, cmd redis.Command) {
+		defer func() {
+			// a handler that panics outside execCommand (an argument index beyond its arity
+			// check, an empty numeric argument ...) must not take the whole server down
+			if r := recover(); r != nil {
+				log.Println("Recovered error: ", r)
+				conn.WriteError("ERR " + fmt.Sprint(r))
+			}
+			if conn.HasError() && conn.State != 0 {
+				conn.State |= redis.MultiError
+			}
+		}()
 		c := GetCommand(cmd.Name)
 		c(n, conn, cmd)
-		if conn.HasError() && conn.State != 0 {
-			conn.State |= redis.MultiError
-		}
 	})
 }
 
